@@ -26,7 +26,7 @@ def hdr(rng, exch=37, resp=False, mid=7):
     return [K.rnd_bytes(rng, 8), K.rnd_bytes(rng, 8), 2, 0, exch, resp, False, not resp, mid]
 
 
-def tamper_cases(rng, data, stride_bits, n_ext):
+def tamper_cases(rng, data, stride_bits, n_ext, trunc_stride=1):
     """every byte position x bit(s), every truncation, extensions."""
     out = []
     for pos in range(len(data)):
@@ -35,7 +35,7 @@ def tamper_cases(rng, data, stride_bits, n_ext):
             d = bytearray(data)
             d[pos] ^= 1 << b
             out.append((bytes(d), 'flip'))
-    for n in range(len(data)):
+    for n in range(0, len(data), trunc_stride):
         out.append((data[:n], 'truncate'))
     for n in range(1, n_ext + 1):
         out.append((data + K.rnd_bytes(rng, n), 'extend'))
@@ -59,7 +59,7 @@ def correspond(ctx):
                 if out[0] == 'OK':
                     dec_cases.append(([spec, False, out[1]], K.impl_decode(spec, False, out[1])))
         # structured protected messages
-        for i in range(150 if ctx.quick() else 20000):
+        for i in range(100 if ctx.quick() else 20000):
             spec = K.gen_spec(rng)
             t = K.gen_message(rng, protected=True, sloppy=False, bs=spec[0])
             out = K.impl_encode(spec, t)
@@ -70,12 +70,13 @@ def correspond(ctx):
                 dec_cases.append(([spec, False, out[1]], K.impl_decode(spec, False, out[1])))
         # tampering with representative protected messages of each exchange type
         auth = K.authentic_messages(rng)
-        reps = [auth[1], auth[2], auth[3], hdr(rng) + [[], [], None, False]]
+        reps = [auth[3], hdr(rng) + [[], [], None, False]] + ([] if ctx.quick() else [auth[1], auth[2]])
         for t in reps:
             spec = [16, rng.choice((12, 16)), K.rnd_bytes(rng, 16), K.rnd_bytes(rng, 20), bytes(16)]
             t = K.with_iv(t, spec, rng)
             data = K.rfc_protected(t, spec)
-            for d, kind in tamper_cases(rng, data, 8 if ctx.quick() else 1, 32):
+            for d, kind in tamper_cases(rng, data, 16 if ctx.quick() else 1, 8 if ctx.quick() else 32,
+                                        3 if ctx.quick() else 1):
                 out = K.impl_decode(spec, False, d)
                 dec_cases.append(([spec, False, d], out))
                 ctx.case(['tamper', d.hex()], nontrivial=True, sample=(kind == 'flip' and len(ctx.samples) < 4))
@@ -255,8 +256,9 @@ CHECK = core.Check(
     rule='protected messages under toy primitives (block sizes 16/8/4/1, ICV 12/16/32/4): one Vendor ID inner payload '
          'of every length 1..2*bs+2 (all residues modulo the block size), structured payload lists, then for a '
          'protected IKE_AUTH, CREATE_CHILD_SA, INFORMATIONAL and empty INFORMATIONAL message every byte position x '
-         'bit (all 8 bits every 8th position in the quick tier, one random bit elsewhere), every truncation, 1..32 '
-         'appended bytes and 8 other integrity keys; to_bytes hex and parse outcome/tree compared with the model; '
+         'bit (thorough; quick: INFORMATIONAL and empty INFORMATIONAL only, all 8 bits every 16th position and one '
+         'random bit elsewhere, every 3rd truncation, 1..8 appended bytes), every truncation, 1..32 appended bytes '
+         'and 8 other integrity keys; to_bytes hex and parse outcome/tree compared with the model; '
          'every case is non-trivial',
     trusted_base=['Coq 8.16.1 kernel (coqc, vm_compute; no native_compute)',
                   'hand model coq/codec/Codec.v (PayloadSK.generate/decrypt, SK branches of Message.to_bytes/parse) '
